@@ -2,12 +2,12 @@ SPECIFICATION Spec
 CONSTANTS
   Mode = "scaled"
   Big = FALSE
-  MaxS = 7
+  MaxS = 8
   Alphabet = {97, 98, 99}
-  Base = 2
-  Off2N = 4
+  Base = 1
+  Off2N = 1
   Len2N = 1
-  Off3N = 8
+  Off3N = 4
   Len8N = 4
   GPS = 1
 INVARIANT TypeOK
